@@ -605,3 +605,248 @@ Proof.
         -- cbn [andb]. apply range_entries_out. intros Hin.
            apply (month_range_month y m' d Hm'r) in Hin. lia.
 Qed.
+
+(* ------------------------------------------------------------------------------------------ *)
+(* L1: the expansion, period by period                                                         *)
+
+(* the declarative predicate, on day numbers *)
+Definition M (r : rule) (a0 d : Z) : bool := matches_s (series_from r a0) (cdate_of d).
+
+Definition no_setpos (r : rule) : Prop := r_bysetpos r = [].
+
+(* the state of rrule's loop that stands for the whole period p *)
+Definition full_state (f : freq) (p : Z) : pstate :=
+  match f with
+  | Daily => PDay p
+  | Weekly => PWeek (7 * p - 3)
+  | Monthly => PMonth p
+  | Yearly => PYear p
+  end.
+
+Lemma full_state_span f p : period_span (full_state f p) = (pstart f p, plen f p).
+Proof.
+  destruct f; cbn [full_state period_span pstart plen]; try reflexivity.
+  f_equal. unfold weekday. lia.
+Qed.
+
+Lemma full_state_of_period f p : state_of_period f (full_state f p) p.
+Proof. destruct f; cbn; auto. Qed.
+
+Lemma in_phase_pidx r a0 d :
+  in_phase (series_from r a0) (cdate_of d) =
+  ((pidx (r_freq r) d - pidx (r_freq r) a0) mod r_interval r =? 0).
+Proof. reflexivity. Qed.
+
+Lemma M_in_phase r a0 d :
+  no_setpos r ->
+  (pidx (r_freq r) d - pidx (r_freq r) a0) mod r_interval r = 0 ->
+  M r a0 d = filters_ok (series_from r a0) (cdate_of d).
+Proof.
+  intros Hsp Hph. unfold M, matches_s. rewrite in_phase_pidx, Hph. cbn [Z.eqb].
+  destruct (filters_ok (series_from r a0) (cdate_of d)); [|reflexivity].
+  unfold setpos_ok. unfold series_from at 1. cbn [e_bysetpos]. rewrite Hsp. reflexivity.
+Qed.
+
+Lemma M_out_of_phase r a0 d :
+  (pidx (r_freq r) d - pidx (r_freq r) a0) mod r_interval r <> 0 -> M r a0 d = false.
+Proof.
+  intros Hph. unfold M, matches_s. rewrite in_phase_pidx.
+  destruct ((pidx (r_freq r) d - pidx (r_freq r) a0) mod r_interval r =? 0) eqn:E; [lia|reflexivity].
+Qed.
+
+(* one pass of the loop over a state whose span lies inside an in-phase period *)
+Lemma period_occ_span r a0 st p s n :
+  lists_ok r -> no_setpos r ->
+  state_of_period (r_freq r) st p ->
+  period_span st = (s, n) ->
+  (forall d, s <= d < s + n -> pidx (r_freq r) d = p) ->
+  (p - pidx (r_freq r) a0) mod r_interval r = 0 ->
+  period_occ (rr_of r a0) st = filter (fun d => (a0 <=? d) && M r a0 d) (zseq s n).
+Proof.
+  intros Hok Hsp Hst Hspan Hin Hph.
+  destruct (rr_of_fields r a0) as (Hf & Hk & Hd0 & _ & _ & _ & _ & _ & Hqsp). cbv zeta in *.
+  unfold period_occ. rewrite Hspan, Hqsp, Hsp, Hd0. cbn [is_nil].
+  rewrite cand_days, filter_filter'. apply filter_ext_in. intros d Hd.
+  apply zseq_In in Hd.
+  assert (Hd' : s <= d < s + n) by lia.
+  rewrite day_ok_filters; [|exact Hok|rewrite (Hin d Hd'); exact Hst].
+  rewrite M_in_phase; [|exact Hsp|rewrite (Hin d Hd'); exact Hph].
+  apply andb_comm.
+Qed.
+
+(* the states the loop goes through: dtstart's own period first, then every interval-th *)
+Definition st_at (r : rule) (a0 : Z) (j : Z) : pstate :=
+  if j =? 0 then init_state (rr_of r a0)
+  else full_state (r_freq r) (pidx (r_freq r) a0 + j * r_interval r).
+
+Lemma init_state_eq r a0 :
+  init_state (rr_of r a0) =
+  match r_freq r with
+  | Weekly => PWeek a0
+  | f => full_state f (pidx f a0)
+  end.
+Proof.
+  destruct (rr_of_fields r a0) as (Hf & Hk & Hd0 & _). cbv zeta in *.
+  unfold init_state. rewrite Hf, Hd0.
+  destruct (civil_from_days a0) as [[y m] dd] eqn:E.
+  destruct (civil_month_first _ _ _ _ E) as (_ & _ & _ & Hmi & Hyr).
+  destruct (r_freq r); cbn [full_state].
+  - rewrite pidx_daily. reflexivity.
+  - reflexivity.
+  - rewrite pidx_monthly, Hmi. reflexivity.
+  - rewrite pidx_yearly, Hyr. reflexivity.
+Qed.
+
+Lemma next_state_full r a0 p :
+  next_state (rr_of r a0) (full_state (r_freq r) p) = full_state (r_freq r) (p + r_interval r).
+Proof.
+  destruct (rr_of_fields r a0) as (_ & Hk & _). cbv zeta in *.
+  destruct (r_freq r); cbn [full_state next_state]; rewrite Hk; try reflexivity.
+  f_equal. unfold weekday. lia.
+Qed.
+
+Lemma next_state_at r a0 j : 0 <= j -> next_state (rr_of r a0) (st_at r a0 j) = st_at r a0 (j + 1).
+Proof.
+  intros Hj. unfold st_at. replace (j + 1 =? 0) with false by lia.
+  destruct (j =? 0) eqn:E.
+  - apply Z.eqb_eq in E. subst j. rewrite init_state_eq.
+    replace (pidx (r_freq r) a0 + (0 + 1) * r_interval r) with (pidx (r_freq r) a0 + r_interval r) by ring.
+    destruct (r_freq r) eqn:Ef; try (rewrite <- Ef, next_state_full, Ef; reflexivity).
+    destruct (rr_of_fields r a0) as (_ & Hk & _). cbv zeta in *.
+    cbn [next_state full_state]. rewrite Hk, pidx_weekly. f_equal. unfold weekday. lia.
+  - rewrite next_state_full. f_equal. ring.
+Qed.
+
+Lemma init_state_cases r a0 :
+  init_state (rr_of r a0) = full_state (r_freq r) (pidx (r_freq r) a0) \/
+  (r_freq r = Weekly /\ init_state (rr_of r a0) = PWeek a0).
+Proof.
+  rewrite init_state_eq. destruct (r_freq r); auto.
+Qed.
+
+(* one pass, as a filter over all the days of the state's period *)
+Lemma period_occ_at r a0 j :
+  lists_ok r -> no_setpos r -> 0 <= j ->
+  period_occ (rr_of r a0) (st_at r a0 j) =
+  filter (fun d => (a0 <=? d) && M r a0 d)
+         (zseq (pstart (r_freq r) (pidx (r_freq r) a0 + j * r_interval r))
+               (plen (r_freq r) (pidx (r_freq r) a0 + j * r_interval r))).
+Proof.
+  intros Hok Hsp Hj.
+  set (p := pidx (r_freq r) a0 + j * r_interval r).
+  assert (Hph : (p - pidx (r_freq r) a0) mod r_interval r = 0).
+  { unfold p. replace (pidx (r_freq r) a0 + j * r_interval r - pidx (r_freq r) a0)
+      with (j * r_interval r) by ring.
+    apply Z_mod_mult. }
+  assert (Hfull : forall d, pstart (r_freq r) p <= d < pstart (r_freq r) p + plen (r_freq r) p ->
+                            pidx (r_freq r) d = p).
+  { intros d Hd. apply pidx_span. rewrite pstart_succ. exact Hd. }
+  assert (Hgen : st_at r a0 j = full_state (r_freq r) p ->
+                 period_occ (rr_of r a0) (st_at r a0 j) =
+                 filter (fun d => (a0 <=? d) && M r a0 d) (zseq (pstart (r_freq r) p) (plen (r_freq r) p))).
+  { intros ->. apply (period_occ_span r a0 _ p); try assumption.
+    - apply full_state_of_period.
+    - apply full_state_span. }
+  unfold st_at in *. destruct (j =? 0) eqn:E; [|apply Hgen; reflexivity].
+  apply Z.eqb_eq in E. subst j.
+  assert (Hp : p = pidx (r_freq r) a0) by (unfold p; ring).
+  destruct (init_state_cases r a0) as [Hi|[Ef Hi]]; [apply Hgen; rewrite Hi, Hp; reflexivity|].
+  (* WEEKLY: the first week is truncated at dtstart *)
+  clear Hgen. rewrite Hi. rewrite Ef in *. cbn [pstart plen].
+  rewrite (period_occ_span r a0 (PWeek a0) p a0 (7 - weekday a0)); try assumption.
+  - pose proof (weekday_range a0) as Hw.
+    replace (zseq (7 * p - 3) 7) with (zseq (7 * p - 3) (weekday a0 + (7 - weekday a0))) by (f_equal; ring).
+    rewrite zseq_app by lia. rewrite filter_app.
+    rewrite (filter_none _ (zseq (7 * p - 3) (weekday a0))).
+    + cbn [app]. f_equal. f_equal. rewrite Hp, pidx_weekly. unfold weekday. lia.
+    + intros d Hd. apply zseq_In in Hd. rewrite Hp, pidx_weekly in Hd. unfold weekday in *.
+      replace (a0 <=? d) with false by lia. reflexivity.
+  - rewrite Ef. exact I.
+  - reflexivity.
+  - rewrite Ef. intros d Hd. rewrite Hp, !pidx_weekly. unfold weekday in *. lia.
+  - rewrite Ef. exact Hph.
+Qed.
+
+(* between two visited periods nothing matches *)
+Lemma gap_none r a0 j :
+  0 < r_interval r ->
+  let f := r_freq r in
+  let p := pidx f a0 + j * r_interval r in
+  filter (fun d => (a0 <=? d) && M r a0 d)
+         (zseq (pstart f (p + 1)) (pstart f (p + r_interval r) - pstart f (p + 1))) = [].
+Proof.
+  intros Hk f p. apply filter_none. intros d Hd. apply zseq_In in Hd.
+  assert (H1 : p + 1 <= pidx f d) by (apply pidx_ge; lia).
+  assert (H2 : pidx f d < p + r_interval r) by (apply pidx_lt; lia).
+  rewrite M_out_of_phase; [apply andb_false_r|]. fold f.
+  replace (pidx f d - pidx f a0) with ((pidx f d - p) + j * r_interval r) by (unfold p; ring).
+  rewrite Z_mod_plus_full. rewrite Z.mod_small by lia. lia.
+Qed.
+
+Definition Mfrom (r : rule) (a0 d : Z) : bool := (a0 <=? d) && M r a0 d.
+
+Lemma rrule_periods_spec r a0 :
+  lists_ok r -> no_setpos r -> 0 < r_interval r ->
+  let f := r_freq r in
+  let p0 := pidx f a0 in
+  forall (n : nat) j, 0 <= j ->
+  rrule_periods (rr_of r a0) (st_at r a0 j) n =
+  filter (Mfrom r a0)
+         (zseq (pstart f (p0 + j * r_interval r))
+               (pstart f (p0 + (j + Z.of_nat n) * r_interval r) - pstart f (p0 + j * r_interval r))).
+Proof.
+  intros Hok Hsp Hk f p0. induction n as [|n IH]; intros j Hj.
+  - cbn [rrule_periods]. rewrite Z.add_0_r, Z.sub_diag. reflexivity.
+  - cbn [rrule_periods]. rewrite next_state_at by exact Hj. rewrite IH by lia.
+    rewrite (period_occ_at r a0 j Hok Hsp Hj). cbv zeta. fold f p0.
+    set (p := p0 + j * r_interval r).
+    replace (p0 + (j + 1) * r_interval r) with (p + r_interval r) by (unfold p; ring).
+    replace (p0 + (j + 1 + Z.of_nat n) * r_interval r) with (p0 + (j + Z.of_nat (S n)) * r_interval r) by lia.
+    set (pe := p0 + (j + Z.of_nat (S n)) * r_interval r).
+    assert (Hpe : p + r_interval r <= pe) by (unfold pe, p; nia).
+    pose proof (pstart_succ f p) as Hs1.
+    pose proof (pstart_mono f (p + 1) (p + r_interval r) ltac:(lia)) as Hs2.
+    pose proof (pstart_mono f (p + r_interval r) pe Hpe) as Hs3.
+    pose proof (plen_pos f p) as Hl.
+    replace (pstart f pe - pstart f p) with
+        (plen f p + ((pstart f (p + r_interval r) - pstart f (p + 1)) +
+                     (pstart f pe - pstart f (p + r_interval r)))) by lia.
+    rewrite zseq_app by lia. rewrite filter_app. f_equal.
+    rewrite <- Hs1. rewrite zseq_app by lia. rewrite filter_app.
+    pose proof (gap_none r a0 j Hk) as Hg. cbv zeta in Hg. fold f p0 p in Hg.
+    unfold Mfrom at 2. rewrite Hg. cbn [app]. f_equal. f_equal. lia.
+Qed.
+
+Lemma pstart_le_dtstart f a0 : pstart f (pidx f a0) <= a0.
+Proof. apply pstart_le. Qed.
+
+(* L1 (rules without BYSETPOS): [n] passes of rrule's loop started at dtstart a0 yield exactly
+   the days d, a0 <= d < first day of period (p0 + n*interval), that satisfy the series'
+   predicate — ascending, each once *)
+Theorem L1_expansion r a0 (n : nat) :
+  lists_ok r -> no_setpos r -> 0 < r_interval r ->
+  let f := r_freq r in
+  let E := pstart f (pidx f a0 + Z.of_nat n * r_interval r) in
+  rrule_model (rr_of r a0) n = filter (M r a0) (zseq a0 (E - a0)).
+Proof.
+  intros Hok Hsp Hk f E. unfold rrule_model.
+  change (init_state (rr_of r a0)) with (st_at r a0 0).
+  rewrite (rrule_periods_spec r a0 Hok Hsp Hk n 0) by lia. fold f.
+  rewrite Z.mul_0_l, Z.add_0_r, Z.add_0_l. fold E.
+  pose proof (pstart_le f a0) as Hle.
+  destruct n as [|n].
+  - unfold E. cbn [Z.of_nat]. rewrite Z.mul_0_l, Z.add_0_r, Z.sub_diag.
+    rewrite (zseq_nil a0) by lia. reflexivity.
+  - assert (HE : a0 < E).
+    { unfold E. pose proof (proj1 (pidx_span f a0 (pidx f a0)) eq_refl) as [_ H2].
+      pose proof (pstart_mono f (pidx f a0 + 1) (pidx f a0 + Z.of_nat (S n) * r_interval r)). nia. }
+    replace (E - pstart f (pidx f a0)) with ((a0 - pstart f (pidx f a0)) + (E - a0)) by ring.
+    rewrite zseq_app by lia. rewrite filter_app.
+    rewrite filter_none.
+    + cbn [app]. replace (pstart f (pidx f a0) + (a0 - pstart f (pidx f a0))) with a0 by ring.
+      apply filter_ext_in. intros d Hd. apply zseq_In in Hd. unfold Mfrom.
+      replace (a0 <=? d) with true by lia. reflexivity.
+    + intros d Hd. apply zseq_In in Hd. unfold Mfrom. replace (a0 <=? d) with false by lia. reflexivity.
+Qed.
+
+Print Assumptions L1_expansion.
